@@ -10,11 +10,16 @@ Composition, at the level of record lists, of
 
 Payload ids stand for the record object and its channel list (name, attributes, pixels: C16 / C07 / C01):
 a node of the reopened tree carrying payload `x` carries the very record of the in-memory layer `x`.
-The bytes between `save` and `open` (records → file → records) are the separate theorems of C01
-(`layer_info_roundtrip`, `psd_roundtrip`): value-preserving for every well-formed document; they are not
-composed here (C01's `LayerRecord` values have no identity, the ids of this model do).
+The bytes between `save` and `open` (records → file → records) are C01's (`psd_roundtrip`):
+`save_reopen_bytes` composes the two for a document that keeps its layers in `layer_info`, for any
+reading of C01's record values that ignores the channel table (values have no identity: the payload
+ids are supplied positionally). For `Lr16` / `Lr32` documents the records sit inside a tagged block
+whose payload is opaque bytes in C01's skeleton; there the composition stays at the level of record
+lists (`save_reopen_doc`).
 -/
 import PsdVerif.Props.C08
+import PsdVerif.Props.C01
+import PsdVerif.Lemmas.ReopenBytes
 import PsdVerif.Lemmas.ReopenBridge
 import PsdVerif.Lemmas.TreeRefine3
 import PsdVerif.Generated.Reopen
@@ -156,6 +161,32 @@ theorem legacy_save_drops_edit :
     (saveReopen false E s 0 ⟨some [], some [1], none⟩).toOption.map flatten = some [.leaf 1] ∧
     (saveReopen true E s 0 ⟨some [], some [1], none⟩).toOption.map flatten = some [.leaf 1, .leaf 2] := by
   decide
+
+/-! ### Through the bytes (C01) -/
+
+/-- **Save + reopen through the file** (8-bit layout). Let the well-formed C01 document `x` hold, in
+`layer_info`, the records `save` rebuilt: record values `rs` which — read by any classification `role`
+that ignores the channel table, the `k`-th value being given the payload id `ps[k]` — are the rebuilt
+record list. Then the written bytes are read back (`psd_roundtrip`) to a document whose records, read
+the same way, parse to the in-memory tree, with the same channel data. (The writer refreshes
+`channel_info.length` in place; nothing else of a record changes.) -/
+theorem save_reopen_bytes (role : Psd.LayerRecord → Nat → Rec) (hrole : ChannelBlind role)
+    (E : RecEnv) (s : State) (d : Id) (i : Inv s) (ok : DocOk E s d)
+    (pad : Nat) (x : Psd.PSD) (hwf : x.WF pad) (li : Psd.LayerInfo) (rs : List Psd.LayerRecord) (ps : List Nat)
+    (hli : x.layerAndMask.layerInfo = some li) (hrs : li.records = some rs)
+    (hstored : flattenState E s d = .ok (List.zipWith role rs ps))
+    (bs : List UInt8) (henc : Psd.PSD.enc pad x = .ok bs) :
+    ∃ x' li' rs', Psd.PSD.read bs 0 = .ok (x', bs.length) ∧ x'.layerAndMask.layerInfo = some li' ∧
+      li'.records = some rs' ∧ li'.channels = li.channels ∧
+      parse (List.zipWith role rs' ps) = .ok (forestOf E s d) := by
+  obtain ⟨rs', h1, h2, h3⟩ := refresh_records_role hrole li rs hrs
+  refine ⟨x.refresh, li.refresh, rs', C01.psd_roundtrip pad x hwf bs henc, ?_, h1, h2, ?_⟩
+  · simp [Psd.PSD.refresh, hli]
+  · rw [h3 ps]
+    have := flattenState_eq i ok
+    rw [hstored] at this
+    rw [Except.ok.inj this]
+    exact C08.parse_flatten _
 
 /-! ### After an edit history -/
 
